@@ -158,6 +158,11 @@ fn render_expected(c: usize, i: usize) -> String {
     }
 }
 
+/// leading digits of the page token
+fn page_rows_of(pg: &str) -> usize {
+    pg.chars().take_while(|c| c.is_ascii_digit()).collect::<String>().parse().unwrap()
+}
+
 struct TestFile {
     bytes: Bytes,
     /// rendering of every column of every row from an unrestricted read
@@ -166,7 +171,7 @@ struct TestFile {
 }
 /// `pg` = rows per data page followed by flags: `d` dictionary on, `2` data page v2
 fn build_file(sizes: &[usize], pg: &str, offset_index: bool) -> TestFile {
-    let rows: usize = pg.trim_end_matches(|c: char| !c.is_ascii_digit()).parse().unwrap();
+    let rows = page_rows_of(pg);
     let mut props = WriterProperties::builder()
         .set_data_page_row_count_limit(rows.max(1))
         .set_write_batch_size(rows.clamp(1, 4))
@@ -355,7 +360,8 @@ fn run_read(t: &[&str]) -> ReadOut {
     };
     let preds: Vec<Pred> = if t[7] == "-" { vec![] } else { t[7].split(';').map(parse_pred).collect() };
     // the predicate bitmasks in the line must be what the predicates mean on the full data
-    let pmasks: Vec<Vec<bool>> = if t[8] == "-" { vec![] } else { t[8].split(';').map(parse_bits).collect() };
+    let pmasks: Vec<Vec<bool>> =
+        if t[8] == "-" { vec![] } else { t[8].split(';').map(|m| if m == "e" { vec![] } else { parse_bits(m) }).collect() };
     let expect_pm: Vec<Vec<bool>> = preds.iter().map(|p| concat.iter().map(|&i| p.holds(i)).collect()).collect();
     if pmasks != expect_pm {
         return ReadOut { answer: "ERR:bad-case".into(), oracle: None };
@@ -540,7 +546,8 @@ fn gen_runs(rng: &mut Rng, total: usize, marks: &[usize], zeros: bool) -> Vec<(u
                 // end exactly on / next to a boundary
                 let next = marks.iter().copied().find(|&m| m > at).unwrap_or(total);
                 let d = next - at;
-                *rng.pick(&[d, d, d.saturating_sub(1).max(1), d + 1, 1 + rng.usize(d + 2)])
+                let alt = 1 + rng.usize(d + 2);
+                *rng.pick(&[d, d, d.saturating_sub(1).max(1), d + 1, alt])
             }
             _ => 1 + rng.usize(left.max(1)),
         };
@@ -779,7 +786,7 @@ fn gen_read(rng: &mut Rng) -> (String, String) {
     let total: usize = groups.iter().map(|g| sizes[*g]).sum();
     let file_rows: usize = sizes.iter().sum();
     // boundaries in the concatenation: row-group edges and page edges
-    let page_rows: usize = pg.trim_end_matches(|c: char| !c.is_ascii_digit()).parse().unwrap();
+    let page_rows = page_rows_of(pg);
     let mut marks = vec![];
     let mut at = 0;
     for g in &groups {
@@ -832,7 +839,8 @@ fn gen_read(rng: &mut Rng) -> (String, String) {
         let r = if k == 1000 { rng.usize(40) } else { rng.usize(k) };
         let spec = format!("{}{}{}={}", col, if rng.bool() { '%' } else { '#' }, k, r);
         let p = parse_pred(&spec);
-        pmasks.push(show_bits(&concat.iter().map(|&i| p.holds(i)).collect::<Vec<_>>()));
+        let bits = concat.iter().map(|&i| p.holds(i)).collect::<Vec<_>>();
+        pmasks.push(if bits.is_empty() { "e".to_string() } else { show_bits(&bits) });
         preds.push(spec);
     }
     let opt = |rng: &mut Rng, hi: usize| -> String {
@@ -894,7 +902,7 @@ fn main() {
         quiet_panics();
     }
     let mut sink = Sink::new(&args.out);
-    let mut record = |sink: &mut Sink, line: String, tags: &str| {
+    let record = |sink: &mut Sink, line: String, tags: &str| {
         let (a, oracle) = run_case(&line);
         if let Some(what) = oracle {
             sink.oracle_failure(line.clone(), what, tags);
